@@ -215,3 +215,7 @@ PROPS["C11"]["full_statement_status"] = ("refuted on the current tree (Props.C11
     "system level (lock table keyed by entry name across storages; Props.C11SysCompose.briefStatement_false); partial forms proved for all inputs outside the classes, and "
     "composed with the system model (lookup order, lock key, delivered key, ChangeKey, woken waiters: Props.C11Sys.holds_model, Props.C11SysCompose.response_passes_oracle)")
 PROPS["C12"]["full_statement_status"] += "; 'every client served completely' also refuted by C07-b (torn response of the filling request) with proved partial (Props.C07Sched.no_torn_partial)"
+
+# C08-c (stale-if-error on a force_revalidate rule: unbounded re-entry): witness / regression stream on sysc's machinery
+for _pid in ("C05", "C08", "C13"):
+    PROPS[_pid]["streams"] += [S("kf.C08-c", 3, 3, 1)]
